@@ -19,6 +19,11 @@ pub use engine::QueryEngine;
 pub use router::QueryRouter;
 pub use streaming::{QueryFilter, StreamingQuery, StreamingQueryExecutor};
 
+/// Verification hook: the split-time result de-duplication routine, re-exported for direct
+/// input-level checking by the model-checking harness. Not compiled into normal builds.
+#[cfg(feature = "verif-hooks")]
+pub use dedup::dedup_batches as verif_dedup_batches;
+
 use crate::compactor::ChunkPinRegistry;
 use crate::ingester::FilteredReceiver;
 use crate::metadata::MetadataClient;
